@@ -100,6 +100,11 @@ func checkC05(c *CheckCtx) error {
 		return inconclusive("the mode table violates the statement of C05 in the specification itself: %s", res.ViolatedBy)
 	}
 	c.model("MC_Mode.cfg", res, true, "CellOK and TableOK hold on every cell")
+	if c.thorough() {
+		if err := c.contractModel(false); err != nil {
+			return err
+		}
+	}
 	var cells []*modeCell
 	for _, line := range res.Printed {
 		s, err := strconv.Unquote(line)
